@@ -221,10 +221,12 @@ impl<F: Float + SampleUniform + std::fmt::Debug, T: Hash, H: Hasher + Default>
                 // update of signature of rank j
                 let j_2 = cmp::min(self.hsketch[self.p[j]].to_usize().unwrap(), m - 1);
                 self.hsketch[self.p[j]] = rpj;
-                if j < j_2 {
+                // r + j may round up to j + 1 : count the value in the bucket of its integer part
+                let j_1 = cmp::min(rpj.to_usize().unwrap(), m - 1);
+                if j_1 < j_2 {
                     // we can decrease counter of upper parts of b and update upper
                     self.b[j_2] -= 1;
-                    self.b[j] += 1;
+                    self.b[j_1] += 1;
                     while self.b[self.a_upper] == 0 {
                         self.a_upper -= 1;
                     } // end if j < j_2
